@@ -26,6 +26,7 @@ func topName(f *ssa.Function) string { return engine.ShortName(topFn(f)) }
 
 func c01(c *Ctx) {
 	defer c01announceInOrder(c)
+	defer c01expungeIsBarrier(c)
 	P, R := c.P, c.R
 	R.Explain("R01.1", "T-WRITERS: the snapshot's message list (snapMsgList.msg/idx, snapMsg.ID/UID/flags/toExpunge) is written only by newMsgList, snapMsgList.insert/insertOutOfOrder/remove/update and snapshot.setMessageFlags; in-place FlagSet mutators on a snapshot's flags occur only in Mailbox.Fetch's \\Seen branch, where the same iteration appends ItemFlags(msg.flags) to the FETCH it sends; the snapshot-level mutators are called only from the three responders' handle methods and State.UpdateMessageRemoteID; State.snap is assigned only by Select/Examine/close/NewState.")
 	R.Explain("R01.2", "T-MUST inside each Responder.handle: every nil-error return that follows a snapshot mutation returns a non-empty response built by the matching constructor (Exists/Expunge/Fetch) unless it is on the true edge of an enumerated silencer (contexts.IsClose, fetch.asSilent, FlagSet.Equals).")
@@ -632,4 +633,53 @@ func c01announceInOrder(c *Ctx) {
 		}
 	}
 	R.Min("R01.7", "targetedExists hold/release decisions", n, 1)
+}
+
+// c01expungeIsBarrier (R01.8): merging of untagged responses never reaches across an EXPUNGE.
+func c01expungeIsBarrier(c *Ctx) {
+	P, R := c.P, c.R
+	R.Explain("R01.8", "an EXPUNGE is a barrier for response merging: sequence numbers before and after it name different messages, so no canSkip method of internal/response may let a response skip over an *expunge - every `return true` of a canSkip is dominated by the ok edge of a type assertion of `other` to a response type other than *expunge.")
+	n := 0
+	for _, f := range c.funcsInPkg("internal/response") {
+		if engine.ShortName(f) != "canSkip" || len(f.Params) != 2 {
+			continue
+		}
+		for _, ret := range engine.Returns(f) {
+			v := engine.ResultOf(ret, 0)
+			if k, ok := v.(*ssa.Const); ok {
+				if bv, isB := engine.ConstBool(k); isB && !bv {
+					continue
+				}
+			}
+			n++
+			ok, why := false, "a response can be skipped without `other` having been identified as a non-EXPUNGE response"
+			for _, b := range f.Blocks {
+				for _, in := range b.Instrs {
+					ta, isTA := in.(*ssa.TypeAssert)
+					if !isTA || !ta.CommaOk || ta.X != ssa.Value(f.Params[1]) {
+						continue
+					}
+					nt := engine.NamedOf(ta.AssertedType)
+					if nt == nil {
+						continue
+					}
+					// facts: the ok component of this assertion is true at the return
+					for _, fact := range engine.FactsDominating(f, ret.Block(), P.IsOwn) {
+						ex, isEx := fact.Cond.(*ssa.Extract)
+						if !isEx || ex.Tuple != ssa.Value(ta) || ex.Index != 1 || !fact.Truth {
+							continue
+						}
+						if nt.Obj().Name() == "expunge" {
+							why = "canSkip answers true for an *expunge"
+							ok = false
+						} else if why != "canSkip answers true for an *expunge" {
+							ok = true
+						}
+					}
+				}
+			}
+			R.Check(ok, "R01.8", c.name(f)+"|skip", P.Pos(ret.Pos()), "skips only over a non-EXPUNGE response", why+": a FETCH/EXISTS merged across an EXPUNGE is attributed to the message that had that sequence number before the removal - the client's view of flags or count differs from what the server answers")
+		}
+	}
+	R.Min("R01.8", "possibly-true returns of canSkip methods", n, 6)
 }
